@@ -1467,7 +1467,11 @@ func c36deepPart(r *vk.Run, t *testing.T) {
 	st.flush(r, "deep")
 	r.States(trees)
 	r.Add("sum_deep_trees_built", trees)
-	r.Set("deep_depths", fmt.Sprintf("%v (x 4 shapes x built plain/exclusive); all (i,j) pairs for d<=%d", depths, allPairsUpTo))
+	ds := fmt.Sprint(depths)
+	if r.Thorough() {
+		ds = "every d in 1..260 and " + fmt.Sprint(depths[260:])
+	}
+	r.Set("deep_depths", fmt.Sprintf("%s (x 4 shapes x built plain/exclusive); all (i,j) pairs for d<=%d", ds, allPairsUpTo))
 }
 
 // Part D through the frame path: chain and star built by real HEADERS frames, one real PRIORITY
